@@ -480,7 +480,9 @@ META["C17"] = dict(
     "including argv and config naming different subcommands. The model computes the expected choice at every level and the "
     "complete expected tree (defaults < default config file < environment < config < command line); the real result must "
     "equal it exactly (no other sections), or the parse must fail when a required subcommand is undeterminable."
-    " Subcommand names include names of Namespace methods (get, items, pop).",
+    " Subcommand names include names of Namespace methods (get, items, pop). Default config files at any level may also carry "
+    "sections for (several of) that level's subcommands without naming one: they count as given settings for the selection rule and "
+    "sit between the subcommand's defaults and its environment values.",
     level_note="Trusted: the model's reading of the selection rule and of the environment variable names (PREFIX_SUB__OPT, "
     "PREFIX_SUB__SUBCOMMAND). Environment-given settings are always accompanied by a named choice.",
     shards=g(4, 16),
@@ -497,6 +499,7 @@ META["C17"] = dict(
         "st.rule.argv-named+config-disagrees": g(30, 300),
         "st.depth.2": g(300, 3000), "st.depth.3": g(150, 1500),
         "st.channel.object": g(200, 2000), "st.channel.argv+cfgfile": g(200, 2000),
+        "st.default_config_sections_for_subcommands": g(500, 5000),
     },
     assumptions=["the multiple-settings warning is not judged"],
 )
